@@ -67,6 +67,8 @@ func opFeTables(args []string) string {
 	return string(b)
 }
 
+var feP *feparser.Parser
+
 type feFake struct {
 	toks []int
 	k    int
@@ -99,7 +101,11 @@ func (s *feFake) Scan() (*fetoken.Token, fetoken.Position) {
 // "accept", "synerr", or "semerr" (a reduce function returned an error).
 func opFeParse(args []string) string {
 	sc := &feFake{toks: ints(args)}
-	p := feparser.NewParser(feparser.ActionTable, feparser.GotoTable, feparser.ProductionsTable, fetoken.FRONTENDTokens)
+	// ONE parser object serves every op of the run: a verdict must not depend on earlier inputs
+	if feP == nil {
+		feP = feparser.NewParser(feparser.ActionTable, feparser.GotoTable, feparser.ProductionsTable, fetoken.FRONTENDTokens)
+	}
+	p := feP
 	_, err := p.Parse(sc)
 	if err == nil {
 		return fmt.Sprintf("accept scans=%d", sc.k)
